@@ -88,7 +88,7 @@ func ClearWrapped(line string, indent int) string {
 	for len(line) > 0 {
 		// Escape sequences take no column.
 		if line[0] == '\x1b' || line[0] == '\xc2' {
-			if seq := color.FirstSequence(line); seq > 0 {
+			if seq := color.FirstSequence(line); seq > 0 && seq <= len(line) {
 				cleared.WriteString(line[:seq])
 				line = line[seq:]
 
